@@ -742,7 +742,8 @@ class Engine:
             # the path's solver state is still live while the consumer looks at the result
             self.in_run = True
             try:
-                yield res
+                if status != 'pruned':  # abandoned paths (infeasible assumption / hypothesis site) are only counted
+                    yield res
             finally:
                 self.in_run = False
                 self.solver.pop()
@@ -816,8 +817,10 @@ class Engine:
             if lin:
                 terms.append(SR({m: c}).z3())
             else:
-                v = z3.Real('mono!%s' % '_'.join('%d^%d' % ak for ak in m))
-                terms.append(z3.RealVal(str(c)) * v)
+                # a non-linear monomial survives with a non-zero coefficient: its abstraction is an unconstrained
+                # fresh real, so the abstracted disequality is satisfiable whatever the linear part is
+                self.stats['verdict_sat'] += 1
+                return False, None
         s.add(z3.Sum(terms) != 0 if len(terms) > 1 else terms[0] != 0)
         t0 = time.time()
         r = s.check()
